@@ -1,4 +1,5 @@
 CONSTANTS
+  EmitEdges = @EDGES@
   Sanity = @SANITY@
   MaxLen = @MAXLEN@
   LongStrings = @LONGSTR@
